@@ -1314,21 +1314,21 @@ def c_mr_functions(case, ctx):
     run_entry("mr_functions", case, ctx)
 
 
-_N = {  # family -> (quick, thorough): ~100 / ~600x16 cases per registry entry (thorough capped per family)
-    "tm_operators": (5000, 300000),
-    "tm_accessors": (1500, 100000),
-    "screw_wrench_operators": (6000, 300000),
-    "screw_wrench_accessors": (1500, 100000),
-    "fsr_helpers": (3000, 60000),
-    "robot_constructors": (400, 16000),
-    "mr_functions": (5000, 200000),
+_N = {  # family -> (quick, thorough): ~100 cases per registry entry quick, ~250x16 thorough
+    "tm_operators": (4500, 200000),
+    "tm_accessors": (1500, 60000),
+    "screw_wrench_operators": (5500, 240000),
+    "screw_wrench_accessors": (1500, 60000),
+    "fsr_helpers": (2800, 50000),
+    "robot_constructors": (400, 12000),
+    "mr_functions": (4500, 120000),
 }
 
 CLAUSES = [Clause(f, family_check(f), family_strategy(f), _N[f][0], _N[f][1]) for f in
            ("tm_operators", "tm_accessors", "screw_wrench_operators", "screw_wrench_accessors", "fsr_helpers")]
 CLAUSES.append(Clause("default_construction", c_default_construction,
                       st.fixed_dictionaries({"entry": st.sampled_from(DEFAULT_KINDS), "history": _history()}),
-                      1500, 100000))
+                      1500, 60000))
 CLAUSES.append(Clause("robot_constructors", family_check("robot_constructors"), family_strategy("robot_constructors"),
                       *_N["robot_constructors"]))
 CLAUSES.append(Clause("mr_functions", c_mr_functions, family_strategy("mr_functions"), *_N["mr_functions"]))
